@@ -137,6 +137,12 @@ static int set_root_attribs(sqfs_writer_t *sqfs, sqfs_dir_iterator_t *it,
 		return -1;
 	}
 
+	if (ent->uid > 0x0FFFFFFFFUL || ent->gid > 0x0FFFFFFFFUL) {
+		fprintf(stderr, "'%s': user/group ID out of range!\n",
+			ent->name);
+		return -1;
+	}
+
 	sqfs->fs.root->uid = ent->uid;
 	sqfs->fs.root->gid = ent->gid;
 	sqfs->fs.root->mode = ent->mode;
